@@ -44,13 +44,6 @@ Qed.
 (* RequestCache                                                                           *)
 (* ====================================================================================== *)
 
-Definition wf_rops (n : N) (ms : list rmac) : bool :=
-  forallb (fun m => match m with
-                    | QTick _ => true
-                    | QStart c _ => c <? n
-                    | QFinish c _ nx => (c <? n) && match nx with Some w => w <? n | None => true end
-                    end) ms.
-
 Definition quiet_pc (p : rpc) : bool :=
   match p with RReserved _ | RReleasing _ => false | _ => true end.
 
@@ -312,8 +305,8 @@ Proof.
     assert (match nx with Some w => w < n | None => True end) as Hnx
       by (destruct nx; auto; now apply N.ltb_lt).
     destruct (qfinish_frame cf n s c res nx cache B C Wc Hnx) as (B' & N' & C').
-    fold s' in B', N', C'. rewrite <- N' at 1. apply IH; auto.
-    now rewrite N'.
+    fold s' in B', N', C'.
+    pose proof (IH s' _ I' B' C' Wr) as H. rewrite N' in H. exact H.
 Qed.
 
 Lemma rinit_bq : forall n, bq n rinit.
